@@ -1,11 +1,685 @@
-// Package c19 is the correspondence/oracle harness for property C19.
+// Package c19: HTML extraction keeps content; navigation filtering only narrows.
+//
+// Cases are generated as logical DOM trees (gen.go), written to bytes by an
+// independent HTML writer (ser.go), and pushed through the file, reader,
+// string and EPUB entry points of tabula in all four exclusion modes. The tree
+// x/net/html actually produced is dumped onto the op line, so the Lean model
+// (Model/Dom, Html, Nav) runs on exactly the parser's output. The oracles in
+// oracle.go are written from the property text and do not use the model.
 package c19
 
-import "verifharness/hx"
+import (
+	"bytes"
+	"fmt"
+	"os"
+	"path/filepath"
+	"strings"
+
+	"golang.org/x/net/html"
+
+	"github.com/tsawler/tabula"
+	"github.com/tsawler/tabula/epubdoc"
+	"github.com/tsawler/tabula/htmldoc"
+	"github.com/tsawler/tabula/model"
+
+	"verifharness/hx"
+)
 
 func init() { hx.Register("C19", Run, Replay) }
 
-// Run is not built yet for this property.
-func Run(c *hx.Ctx) { c.Note("C19: harness not built") }
+type modeT = htmldoc.NavigationExclusionMode
 
-func Replay(c *hx.Ctx, kase map[string]interface{}) {}
+var modes = []modeT{htmldoc.NavigationExclusionNone, htmldoc.NavigationExclusionExplicit,
+	htmldoc.NavigationExclusionStandard, htmldoc.NavigationExclusionAggressive}
+var modeName = []string{"none", "explicit", "standard", "aggressive"}
+
+type atom struct{ kind, text string }
+
+// view is everything observed for one mode on a fresh reader.
+type view struct {
+	text, md string
+	docAtoms []atom
+	docDump  string
+	elAtoms  []atom
+	elsDump  string
+	xbits    string
+	excluded func(*html.Node) bool
+}
+
+type kase struct {
+	Stream string `json:"stream"`
+	Index  int    `json:"index"`
+	Note   string `json:"note,omitempty"`
+	HTML   string `json:"html"`
+}
+
+// ---- wire format ------------------------------------------------------------
+
+func rawHex(s string) string { return fmt.Sprintf("%x", s) }
+
+// dumpTree: node ::= 'T' hex '.' | 'E' hex {'@' hex '=' hex} '(' node* ')' | 'O' '(' node* ')'
+func dumpTree(b *strings.Builder, n *html.Node) {
+	switch n.Type {
+	case html.TextNode:
+		b.WriteString("T" + rawHex(n.Data) + ".")
+		return
+	case html.ElementNode:
+		b.WriteString("E" + rawHex(n.Data))
+		for _, a := range n.Attr {
+			b.WriteString("@" + rawHex(a.Key) + "=" + rawHex(a.Val))
+		}
+	default:
+		b.WriteString("O")
+	}
+	b.WriteString("(")
+	for c := n.FirstChild; c != nil; c = c.NextSibling {
+		dumpTree(b, c)
+	}
+	b.WriteString(")")
+}
+
+func findBody(n *html.Node) *html.Node {
+	if n.Type == html.ElementNode && n.Data == "body" {
+		return n
+	}
+	for c := n.FirstChild; c != nil; c = c.NextSibling {
+		if r := findBody(c); r != nil {
+			return r
+		}
+	}
+	return nil
+}
+
+func dumpCell(c htmldoc.TableCell) string {
+	h := "d"
+	if c.IsHeader {
+		h = "h"
+	}
+	return fmt.Sprintf("%s%dx%d.%s", h, c.RowSpan, c.ColSpan, hx.HexS(c.Text))
+}
+
+func dumpEls(els []htmldoc.VerifElement) (string, []atom) {
+	var parts []string
+	var atoms []atom
+	for _, e := range els {
+		switch e.Type {
+		case htmldoc.ElementHeading:
+			parts = append(parts, fmt.Sprintf("H%d:%s", e.Level, hx.HexS(e.Text)))
+			atoms = append(atoms, atom{"heading", e.Text})
+		case htmldoc.ElementParagraph:
+			parts = append(parts, "P:"+hx.HexS(e.Text))
+			atoms = append(atoms, atom{"para", e.Text})
+		case htmldoc.ElementCode:
+			parts = append(parts, "C:"+hx.HexS(e.Text))
+			atoms = append(atoms, atom{"code", e.Text})
+		case htmldoc.ElementBlockquote:
+			parts = append(parts, "Q:"+hx.HexS(e.Text))
+			atoms = append(atoms, atom{"quote", e.Text})
+		case htmldoc.ElementList:
+			o := "u"
+			if e.Ordered {
+				o = "o"
+			}
+			var its []string
+			for _, it := range e.Items {
+				its = append(its, fmt.Sprintf("%d.%s", it.Level, hx.HexS(it.Text)))
+				atoms = append(atoms, atom{"item", it.Text})
+			}
+			parts = append(parts, "L"+o+":"+strings.Join(its, ","))
+		case htmldoc.ElementTable:
+			hh := "n"
+			if e.Table != nil && e.Table.HasHeader {
+				hh = "h"
+			}
+			var rows []string
+			if e.Table != nil {
+				for _, row := range e.Table.Rows {
+					var cs []string
+					for _, c := range row {
+						cs = append(cs, dumpCell(c))
+						atoms = append(atoms, atom{"cell", c.Text})
+					}
+					rows = append(rows, strings.Join(cs, ","))
+				}
+			}
+			parts = append(parts, "T"+hh+":"+strings.Join(rows, "/"))
+		default:
+			parts = append(parts, fmt.Sprintf("?%d", int(e.Type)))
+		}
+	}
+	if len(parts) == 0 {
+		return "-", atoms
+	}
+	return strings.Join(parts, ";"), atoms
+}
+
+func dumpDoc(d *model.Document) (string, []atom) {
+	var parts []string
+	var atoms []atom
+	if d == nil {
+		return "nil", nil
+	}
+	for _, pg := range d.Pages {
+		for _, e := range pg.Elements {
+			switch v := e.(type) {
+			case *model.Heading:
+				parts = append(parts, fmt.Sprintf("H%d:%s", v.Level, hx.HexS(v.Text)))
+				atoms = append(atoms, atom{"heading", v.Text})
+			case *model.Paragraph:
+				parts = append(parts, "P:"+hx.HexS(v.Text))
+				atoms = append(atoms, atom{"para", v.Text})
+			case *model.List:
+				o := "u"
+				if v.Ordered {
+					o = "o"
+				}
+				var its []string
+				for _, it := range v.Items {
+					its = append(its, fmt.Sprintf("%d.%s", it.Level, hx.HexS(it.Text)))
+					atoms = append(atoms, atom{"item", it.Text})
+				}
+				parts = append(parts, "L"+o+":"+strings.Join(its, ","))
+			case *model.Table:
+				var rows []string
+				for _, row := range v.Rows {
+					var cs []string
+					for _, c := range row {
+						h := "d"
+						if c.IsHeader {
+							h = "h"
+						}
+						cs = append(cs, fmt.Sprintf("%s%dx%d.%s", h, c.RowSpan, c.ColSpan, hx.HexS(c.Text)))
+						atoms = append(atoms, atom{"cell", c.Text})
+					}
+					rows = append(rows, strings.Join(cs, ","))
+				}
+				parts = append(parts, "T:"+strings.Join(rows, "/"))
+			default:
+				parts = append(parts, fmt.Sprintf("?%T", e))
+			}
+		}
+	}
+	if len(parts) == 0 {
+		return "-", atoms
+	}
+	return strings.Join(parts, ";"), atoms
+}
+
+func xbits(root *html.Node, ex func(*html.Node) bool) string {
+	var b strings.Builder
+	var walk func(n *html.Node)
+	walk = func(n *html.Node) {
+		if n.Type == html.ElementNode {
+			if ex(n) {
+				b.WriteByte('1')
+			} else {
+				b.WriteByte('0')
+			}
+		}
+		for c := n.FirstChild; c != nil; c = c.NextSibling {
+			walk(c)
+		}
+	}
+	walk(root)
+	if b.Len() == 0 {
+		return "-"
+	}
+	return b.String()
+}
+
+// ---- running one document --------------------------------------------------
+
+type docRun struct {
+	root  *html.Node // body (or the document node)
+	views [4]*view
+}
+
+func observe(data []byte, m int) (*view, *htmldoc.Reader, error) {
+	rd, err := htmldoc.OpenReader(bytes.NewReader(data))
+	if err != nil {
+		return nil, nil, err
+	}
+	opts := htmldoc.ExtractOptions{NavigationExclusion: modes[m]}
+	v := &view{}
+	if v.text, err = rd.TextWithOptions(opts); err != nil {
+		return nil, nil, err
+	}
+	if v.md, err = rd.MarkdownWithOptions(opts); err != nil {
+		return nil, nil, err
+	}
+	d, err := rd.DocumentWithOptions(opts)
+	if err != nil {
+		return nil, nil, err
+	}
+	v.docDump, v.docAtoms = dumpDoc(d)
+	v.elsDump, v.elAtoms = dumpEls(rd.VerifElements(modes[m]))
+	return v, rd, nil
+}
+
+func runDoc(c *hx.Ctx, k *kase, data []byte, g *genInfo) {
+	var run docRun
+	var failed error
+	p := hx.Safe(func() {
+		for m := range modes {
+			v, rd, err := observe(data, m)
+			if err != nil {
+				failed = err
+				return
+			}
+			if m == 0 {
+				doc := rd.VerifRoot()
+				run.root = findBody(doc)
+				if run.root == nil {
+					run.root = doc
+				}
+			}
+			run.views[m] = v
+		}
+		// exclusion decisions are taken on the mode-None reader's tree so that
+		// node identities are shared by all modes
+		rd0, _ := htmldoc.OpenReader(bytes.NewReader(data))
+		doc := rd0.VerifRoot()
+		run.root = findBody(doc)
+		if run.root == nil {
+			run.root = doc
+		}
+		for m := range modes {
+			run.views[m].excluded = htmldoc.VerifExcluder(modes[m], doc)
+			run.views[m].xbits = xbits(run.root, run.views[m].excluded)
+		}
+	})
+	if !chk(c, "C19/panic", p == "", k, func() string { return "panic in htmldoc reader: " + p }) {
+		c.Case(k.HTML, false)
+		return
+	}
+	if failed != nil {
+		c.Count("open-error")
+		c.Case(k.HTML, false)
+		return
+	}
+	var tb strings.Builder
+	dumpTree(&tb, run.root)
+	tree := tb.String()
+	for m := range modes {
+		v := run.views[m]
+		c.Op("c19.dom "+modeName[m]+" "+tree,
+			"E="+v.elsDump+" X="+v.xbits+" T="+hx.HexS(v.text)+" D="+v.docDump)
+	}
+	c.Case(k.HTML, strings.TrimSpace(run.views[0].text) != "")
+	oracles(c, k, data, &run, g)
+	entryPoints(c, k, data, &run)
+	cacheOrder(c, k, data, &run)
+}
+
+// ---- other entry points --------------------------------------------------------
+
+func entryPoints(c *hx.Ctx, k *kase, data []byte, run *docRun) {
+	dir := filepath.Join(c.OutDir, "tmp")
+	os.MkdirAll(dir, 0o755)
+	path := filepath.Join(dir, "case.html")
+	os.WriteFile(path, data, 0o644)
+	defer os.Remove(path)
+	var diffs []string
+	add := func(what, got, want string) {
+		if got != want {
+			diffs = append(diffs, fmt.Sprintf("%s: got %q want %q", what, clip(got), clip(want)))
+		}
+	}
+	p := hx.Safe(func() {
+		// file
+		for m := range modes {
+			rd, err := htmldoc.Open(path)
+			if err != nil {
+				diffs = append(diffs, "htmldoc.Open: "+err.Error())
+				continue
+			}
+			t, _ := rd.TextWithOptions(htmldoc.ExtractOptions{NavigationExclusion: modes[m]})
+			add("file/"+modeName[m], t, run.views[m].text)
+			md, _ := rd.MarkdownWithOptions(htmldoc.ExtractOptions{NavigationExclusion: modes[m]})
+			add("file-md/"+modeName[m], md, run.views[m].md)
+			rd.Close()
+		}
+		// the tabula.Extractor wrappers do not let the caller pick a mode: whatever
+		// default they use, the answer must be the htmldoc answer of that mode
+		someMode := func(what, got string, pick func(*view) string) {
+			for m := range modes {
+				if got == pick(run.views[m]) {
+					c.Count(what + "=" + modeName[m])
+					return
+				}
+			}
+			diffs = append(diffs, fmt.Sprintf("%s: got %q, which is the htmldoc result of no mode (none gives %q)", what, clip(got), clip(pick(run.views[0]))))
+		}
+		if t, _, err := tabula.Open(path).Text(); err == nil {
+			someMode("tabula.Open(file).Text", t, func(v *view) string { return v.text })
+		} else {
+			c.Count("tabula-open-html-error")
+		}
+		// string / reader
+		if t, _, err := tabula.FromHTMLString(string(data)).Text(); err == nil {
+			someMode("FromHTMLString.Text", t, func(v *view) string { return v.text })
+		} else {
+			diffs = append(diffs, "FromHTMLString: "+err.Error())
+		}
+		if d, _, err := tabula.FromHTMLReader(bytes.NewReader(data)).Document(); err == nil {
+			dd, _ := dumpDoc(d)
+			someMode("FromHTMLReader.Document", dd, func(v *view) string { return v.docDump })
+		} else {
+			diffs = append(diffs, "FromHTMLReader.Document: "+err.Error())
+		}
+		if md, _, err := tabula.FromHTMLString(string(data)).ToMarkdown(); err == nil {
+			someMode("FromHTMLString.ToMarkdown", md, func(v *view) string { return v.md })
+		} else {
+			diffs = append(diffs, "FromHTMLString.ToMarkdown: "+err.Error())
+		}
+		// EPUB: the same bytes as a chapter, optionally followed by a second chapter
+		chapters := [][]byte{data}
+		last := ""
+		if k.Index%3 == 1 {
+			chapters = append(chapters, []byte("<html><body><p>tk9999x last chapter</p></body></html>"))
+			last = "tk9999x last chapter"
+		}
+		zipped := epub(chapters, []string{"OEBPS", "", "EPUB/pkg"}[k.Index%3])
+		for m := range modes {
+			er, err := epubdoc.OpenReader(bytes.NewReader(zipped), int64(len(zipped)))
+			if err != nil {
+				diffs = append(diffs, "epubdoc.OpenReader: "+err.Error())
+				break
+			}
+			t, err := er.TextWithOptions(epubdoc.ExtractOptions{NavigationExclusion: int(modes[m])})
+			if err != nil {
+				diffs = append(diffs, "epub TextWithOptions: "+err.Error())
+				continue
+			}
+			var parts []string
+			if w := strings.TrimSpace(run.views[m].text); w != "" {
+				parts = append(parts, w)
+			}
+			if last != "" {
+				parts = append(parts, last)
+			}
+			add("epub/"+modeName[m], t, strings.Join(parts, "\n\n"))
+			er.Close()
+		}
+		epath := filepath.Join(dir, "case.epub")
+		os.WriteFile(epath, zipped, 0o644)
+		defer os.Remove(epath)
+		if er, err := epubdoc.Open(epath); err == nil {
+			t, _ := er.TextWithOptions(epubdoc.ExtractOptions{NavigationExclusion: int(modes[3])})
+			var parts []string
+			if w := strings.TrimSpace(run.views[3].text); w != "" {
+				parts = append(parts, w)
+			}
+			if last != "" {
+				parts = append(parts, last)
+			}
+			add("epub-file/aggressive", t, strings.Join(parts, "\n\n"))
+			er.Close()
+		} else {
+			diffs = append(diffs, "epubdoc.Open: "+err.Error())
+		}
+	})
+	chk(c, "C19/panic", p == "", k, func() string { return "panic in an entry point: " + p })
+	chk(c, "C19/entrypoints-disagree", len(diffs) == 0, k, func() string { return strings.Join(diffs, "; ") })
+}
+
+// cacheOrder calls the modes in a generated order (with repeats) on ONE reader
+// and compares every answer with the fresh-reader answer for that mode.
+func cacheOrder(c *hx.Ctx, k *kase, data []byte, run *docRun) {
+	// derived from (seed, stream, index) only, so that a replay makes the same calls
+	r := hx.NewRng(c.Seed + uint64(len(k.Stream))*1000003).Fork(uint64(k.Index)*7919 + 13)
+	var diffs []string
+	p := hx.Safe(func() {
+		// every ordered pair of distinct modes on a reader of its own
+		for a := 0; a < 4; a++ {
+			for b := 0; b < 4; b++ {
+				if a == b {
+					continue
+				}
+				rd, err := htmldoc.OpenReader(bytes.NewReader(data))
+				if err != nil {
+					return
+				}
+				rd.TextWithOptions(htmldoc.ExtractOptions{NavigationExclusion: modes[a]})
+				got, _ := rd.TextWithOptions(htmldoc.ExtractOptions{NavigationExclusion: modes[b]})
+				if got != run.views[b].text && len(diffs) < 3 {
+					diffs = append(diffs, fmt.Sprintf("text of mode %s asked after mode %s: got %q, a fresh reader gives %q",
+						modeName[b], modeName[a], clip(got), clip(run.views[b].text)))
+				}
+			}
+		}
+		rd, err := htmldoc.OpenReader(bytes.NewReader(data))
+		if err != nil {
+			return
+		}
+		var seq []string
+		for i := 0; i < 9; i++ {
+			m := r.Intn(4)
+			opts := htmldoc.ExtractOptions{NavigationExclusion: modes[m]}
+			var got, want string
+			switch r.Intn(3) {
+			case 0:
+				got, _ = rd.TextWithOptions(opts)
+				want = run.views[m].text
+				seq = append(seq, "text:"+modeName[m])
+			case 1:
+				got, _ = rd.MarkdownWithOptions(opts)
+				want = run.views[m].md
+				seq = append(seq, "md:"+modeName[m])
+			default:
+				d, _ := rd.DocumentWithOptions(opts)
+				got, _ = dumpDoc(d)
+				want = run.views[m].docDump
+				seq = append(seq, "doc:"+modeName[m])
+			}
+			if got != want {
+				diffs = append(diffs, fmt.Sprintf("after calls %v: got %q, a fresh reader gives %q", seq, clip(got), clip(want)))
+				return
+			}
+		}
+	})
+	chk(c, "C19/panic", p == "", k, func() string { return "panic in call sequence: " + p })
+	chk(c, "C19/cache-mode-mixup", len(diffs) == 0, k, func() string { return strings.Join(diffs, "; ") })
+}
+
+func clip(s string) string {
+	if len(s) > 300 {
+		return s[:300] + "…"
+	}
+	return s
+}
+
+// ---- case streams ----------------------------------------------------------------
+
+type genInfo struct {
+	doc    *gnode
+	strict bool // the parse of the bytes is predictable from the logical tree
+	ent    bool
+}
+
+// fixed witnesses (kept first): the defects this property found in the pinned tree
+var fixed = []string{
+	`<ul><li><p>tk0001x loose item</p></li><li>tk0002x tight</li></ul>`,
+	`<ol><li><p>tk0001x a</p><p>tk0002x b</p><ul><li>tk0003x nested</li></ul></li><li><blockquote>tk0004x q</blockquote></li><li><div>tk0005x d</div></li></ol>`,
+	`<ul><li>tk0001x<table><tr><td>tk0002x</td><td>tk0003x</td></tr></table></li></ul>`,
+	`<ul><li>tk0001x a</li><h3>tk0002x mid</h3><li>tk0003x b</li></ul>`,
+	`<ul><li>tk0001x a</li><p>tk0002x mid</p><li>tk0003x b</li></ul><p>tk0004x after</p>`,
+	`<ul><li>tk0001x a</li><p class="nav">tk0002x mid</p><li>tk0003x b</li></ul>`,
+	`<ul><li>tk0001x a</li><div><pre>tk0002x code</pre></div><li>tk0003x b</li></ul>`,
+	`<ul><li>tk0001x a</li><blockquote>tk0002x q</blockquote><div>tk0003x d</div><li>tk0004x b</li></ul>`,
+	`<table><thead><tr><th>tk0001x</th></tr></thead><tbody><tr><td>tk0002x</td></tr></tbody><tfoot><tr><td>tk0003x total</td></tr></tfoot></table>`,
+	`<table><tr><td colspan="2">tk0001x wide</td></tr><tr><td>tk0002x</td><td>tk0003x</td></tr></table>`,
+	`<p>tk0001x intro<table><tr><td>tk0002x</td></tr></table></p>`,
+	`<!DOCTYPE html><body><div id=wrapper><header><h1>tk0001x site</h1></header><main><article><header><h2>tk0002x post</h2></header><p>tk0003x body</p><footer><p>tk0004x byline</p></footer></article></main><footer><p>tk0005x legal</p></footer></div><script>var lk0001x;</script>`,
+	`<div class="footnote"><p>tk0001x</p></div><div class="sidebarish"><p>tk0002x</p></div><div class="navigate"><p>tk0003x</p></div><div class="main-nav"><p>tk0004x</p></div>`,
+	`<div><a href=1>tk0001x</a> <a href=2>tk0002x</a> <a href=3>tk0003x</a> <a href=4>tk0004x</a></div><div><p>tk0005x text</p></div>`,
+	`<div><li><p>tk0001x para in a stray li</p></li><li>tk0002x stray item<ul><li>tk0003x nested</li></ul></li></div><p>tk0004x</p>`,
+	`<blockquote><nav><p>tk0001x</p></nav><p>tk0002x</p></blockquote><h2>caf&eacute; &amp; &#x4e2d; tk0003x &lt;b&gt;</h2>`,
+}
+
+func genCase(seed uint64, index int) (*kase, []byte, *genInfo) {
+	r := hx.NewRng(seed).Fork(uint64(index))
+	g := newGen(r, r.Range(3, 40))
+	doc, layout := g.document()
+	o := serOpts{doctype: r.Intn(3), omitEnd: r.Chance(1, 3), omitWrap: r.Chance(1, 4), upper: r.Chance(1, 5),
+		indent: r.Chance(1, 2), unclosedFmt: r.Chance(1, 6), selfClose: r.Chance(1, 3), entities: r.Intn(2), xmlProlog: r.Chance(1, 8)}
+	chunks, ent := serialize(r, doc, o)
+	info := &genInfo{doc: doc, strict: true, ent: ent}
+	s := join(chunks)
+	note := "layout=" + layout
+	if r.Chance(1, 5) {
+		var what string
+		s, what = damage(r, chunks)
+		info.strict = false
+		note += " damage=" + what
+	}
+	for f := range g.feat {
+		note += " " + f
+	}
+	return &kase{Stream: "gen", Index: index, Note: note, HTML: s}, []byte(s), info
+}
+
+func countNote(c *hx.Ctx, note string) {
+	for _, f := range strings.Fields(note) {
+		c.Count(f)
+	}
+}
+
+func Run(c *hx.Ctx) {
+	c.Rep.Rule = "DOM trees generated from a grammar of content elements (h1-6, p, nested/loose lists, tables with spans and sections, pre/code, blockquote) " +
+		"mixed with nav/aside/header/footer, ARIA roles, class/id names from and near the exclusion vocabulary, link-dense/sparse blocks and skipped elements, " +
+		"at depth up to 10, in six page layouts; written by an independent HTML writer (entity forms, optional tags omitted, mixed case, unclosed formatting) and, " +
+		"for one case in five, damaged (truncation, dropped/stray/duplicated tags, garbage); every content element carries a unique token; each document is read in " +
+		"all four modes through htmldoc.Open/OpenReader, tabula.Open/FromHTMLString/FromHTMLReader and an EPUB built around it. Non-trivial = mode None returns non-empty text."
+	matchOps(c)
+	for i, s := range fixed {
+		k := &kase{Stream: "fixed", Index: i, HTML: s}
+		c.Count("fixed")
+		runDoc(c, k, []byte(s), nil)
+	}
+	n := c.N(900, 6000)
+	for i := 0; i < n; i++ {
+		k, data, info := genCase(c.Seed, i)
+		if os.Getenv("C19_DUMP") == fmt.Sprint(i) {
+			fmt.Fprintf(os.Stderr, "CASE %d\n%s\n", i, data)
+		}
+		countNote(c, k.Note)
+		if info.strict {
+			c.Count("strict")
+		}
+		runDoc(c, k, data, info)
+	}
+	os.RemoveAll(filepath.Join(c.OutDir, "tmp"))
+}
+
+func Replay(c *hx.Ctx, kase_ map[string]interface{}) {
+	stream, _ := kase_["stream"].(string)
+	idx := 0
+	if f, ok := kase_["index"].(float64); ok {
+		idx = int(f)
+	}
+	htmlS, _ := kase_["html"].(string)
+	switch stream {
+	case "gen":
+		k, data, info := genCase(c.Seed, idx)
+		if htmlS != "" && htmlS != k.HTML {
+			// the generator changed since the replay was written: fall back to the recorded bytes
+			runDoc(c, &kase{Stream: "html", Index: idx, HTML: htmlS}, []byte(htmlS), nil)
+			return
+		}
+		runDoc(c, k, data, info)
+	case "match":
+		matchOne(c, htmlS)
+	default:
+		runDoc(c, &kase{Stream: stream, Index: idx, HTML: htmlS}, []byte(htmlS), nil)
+	}
+	os.RemoveAll(filepath.Join(c.OutDir, "tmp"))
+}
+
+// ---- pattern matcher ops -----------------------------------------------------------
+
+func patternHit(s string) bool {
+	n := &html.Node{Type: html.ElementNode, Data: "span", Attr: []html.Attribute{{Key: "class", Val: s}}}
+	return htmldoc.VerifExcluder(htmldoc.NavigationExclusionStandard, n)(n)
+}
+
+func matchOne(c *hx.Ctx, s string) bool {
+	hit := patternHit(s)
+	out := "0"
+	if hit {
+		out = "1"
+	}
+	c.Op("c19.match "+hx.HexS(s), out)
+	// the same name in id= must give the same answer, and Explicit must ignore it
+	n := &html.Node{Type: html.ElementNode, Data: "span", Attr: []html.Attribute{{Key: "id", Val: s}}}
+	idHit := htmldoc.VerifExcluder(htmldoc.NavigationExclusionAggressive, n)(n)
+	exHit := htmldoc.VerifExcluder(htmldoc.NavigationExclusionExplicit, n)(n)
+	chk(c, "C19/mode-lattice-pattern", idHit == hit && !exHit, map[string]string{"stream": "match", "html": s}, func() string {
+		return fmt.Sprintf("name %q: standard(class)=%v aggressive(id)=%v explicit(id)=%v", s, hit, idHit, exHit)
+	})
+	return hit
+}
+
+func matchOps(c *hx.Ctx) {
+	hits := 0
+	for _, w := range append(append([]string{}, vocab...), nearVocab...) {
+		for _, d := range decor {
+			s := fmt.Sprintf(d, w)
+			for _, v := range []string{s, strings.ToUpper(s), strings.Title(s), strings.Replace(s, "s", "ſ", 1), strings.Replace(s, "k", "K", 1)} {
+				if matchOne(c, v) {
+					hits++
+				}
+			}
+		}
+	}
+	// exhaustive short strings over a reduced alphabet
+	alpha := []string{"n", "a", "v", "-", "X", " "}
+	var rec func(prefix string, left int)
+	rec = func(prefix string, left int) {
+		if matchOne(c, prefix) {
+			hits++
+		}
+		if left == 0 {
+			return
+		}
+		for _, a := range alpha {
+			rec(prefix+a, left-1)
+		}
+	}
+	rec("", c.N(4, 5))
+	for i := 0; i < c.N(500, 5000); i++ {
+		var sb strings.Builder
+		for j := c.Rng.Range(1, 4); j > 0; j-- {
+			switch c.Rng.Intn(4) {
+			case 0:
+				sb.WriteString(hx.Pick(c.Rng, vocab))
+			case 1:
+				sb.WriteString(hx.Pick(c.Rng, nearVocab))
+			case 2:
+				sb.WriteString(hx.Pick(c.Rng, []string{"-", "_", " ", "1", "x", "é", "ſ", "K", "\n", ".", "A", "z"}))
+			default:
+				sb.WriteString(caseFlip(c.Rng, hx.Pick(c.Rng, vocab)))
+			}
+		}
+		if matchOne(c, sb.String()) {
+			hits++
+		}
+	}
+	c.Rep.Distribution["match-hits"] = hits
+}
+
+// chk is c.Check plus an optional debugging trace (C19_DEBUG=<key substring>).
+var dbgKey = os.Getenv("C19_DEBUG")
+var dbgLeft = 40
+
+func chk(c *hx.Ctx, key string, ok bool, k interface{}, detail func() string) bool {
+	if !ok && dbgKey != "" && strings.Contains(key, dbgKey) && dbgLeft > 0 {
+		dbgLeft--
+		idx, note := -1, ""
+		if kk, isK := k.(*kase); isK {
+			idx, note = kk.Index, kk.Stream+" "+kk.Note
+		}
+		fmt.Fprintf(os.Stderr, "DBG %s case=%d %s\n    %s\n", key, idx, note, detail())
+	}
+	return c.Check(key, ok, k, detail)
+}
